@@ -26,7 +26,7 @@ ASSUMPTIONS = [
     "fan-out is limited so that the machine is not saturated",
 ]
 SHARDS = {"quick": 5, "thorough": 6}
-FLOORS = {"quick": {"cases_observed_from_a_thread_with_its_own_affinity_mask": 3, "arith_observations": 400, "real_runs": 120, "runs_with_overlap": 50, "nested_runs": 12, "nested_runs_with_hints_or_contexts_at_the_first_level": 8},
+FLOORS = {"quick": {"cases_whose_cpu_limits_change_during_the_process": 8, "cases_observed_from_a_thread_with_its_own_affinity_mask": 3, "arith_observations": 400, "real_runs": 120, "runs_with_overlap": 50, "nested_runs": 12, "nested_runs_with_hints_or_contexts_at_the_first_level": 8},
           "thorough": {"cases_observed_from_a_thread_with_its_own_affinity_mask": 30, "arith_observations": 4000, "real_runs": 800, "runs_with_overlap": 400, "nested_runs": 100, "nested_runs_with_hints_or_contexts_at_the_first_level": 60}}
 CHILD = os.path.join(harness.VERIF, "checks", "c15_child.py")
 
@@ -55,8 +55,16 @@ def cases(tier, seed):
             nest = dict(depth=3, outer_n=rng2.choice([2, 3]), inner_n=2,
                         mid_style=["default", "require-sharedmem", "ctx-loky+require-sharedmem", "prefer-threads", "ctx-threading", "ctx-multiprocessing+require-sharedmem",
                                    "ctx-loky+prefer-threads"][(i // 2) % 7])
+        phases = []
+        if i % 3 == 2:
+            # the limits change during the life of the process (after negative n_jobs values were resolved and pools were sized)
+            m2 = rng2.choice([x for x in masks if x <= (tm or m)])        # a thread can only narrow its mask further here
+            e2 = rng2.choice([None, 1, 2, 3])
+            phases.append(dict(mask=m2, loky_max=e2))
+            if rng2.random() < 0.5:
+                phases.append(dict(mask=m2, loky_max=rng2.choice([None, 2, 64])))
         yield dict(i=i, mask=m, thread_mask=tm, loky_max=e, backend=b, n_jobs_arith=list(range(-2 * cpus - 1, 2 * cpus + 2)),
-                   n_jobs_run=rng_run, nest=nest)
+                   n_jobs_run=rng_run, nest=nest, phases=phases)
 
 
 def high_water(rows):
@@ -87,8 +95,12 @@ def run_case(case, ctx):
             ctx.inconclusive("child-failed", dict(desc, rc=r["rc"], err=r["err"][-700:]))
             return
         o = r["result"]
-        if o["cpu_count"] != o["ref_cpu_count"] or o["cpu_count"] < 1:
-            ctx.violation("cpu_count", f"cpu_count()={o['cpu_count']} but reference {o['ref_cpu_count']} under {desc}", desc)
+        if case.get("phases"):
+            ctx.count("cases_whose_cpu_limits_change_during_the_process")
+            desc["phases"] = case["phases"]
+        for got, ref in o.get("cpu_counts", [[o["cpu_count"], o["ref_cpu_count"]]]):
+            if got != ref or got < 1:
+                ctx.violation("cpu_count", f"cpu_count()={got} but reference {ref} under {desc}", desc)
         threads_only = case["backend"] == "threading"
         for rec in o["obs"]:
             ctx.count("arith_observations")
